@@ -61,6 +61,12 @@ CHECKS = {
  "C18": dict(cat="fault_enumeration", tech="fault enumeration over (termination mode x crash position x backend x autoprove) with one fresh interpreter per case; independent decoders for artefact content",
    text="Every way a script can terminate (19 modes) is inserted at every enumerated statement position for each file-writing backend with automatic proving on and off, each in its own interpreter with a call counter around backend.prove. Exit status, prove count, presence and decoded content of the artefacts, and exit-hook tracebacks are compared with a model of plain Python's behaviour. The (mode, position, N, backend, autoprove) space is finite and enumerated completely for the stated N.",
    note="Trusted base: CPython exit semantics as tabulated in harness/checks/c18.py, the decoders, the flatbuffers stand-in and qaptools stubs.", ref="4 (C18)"),
+ "C19": dict(cat="exploration", tech="complete enumeration of the finite configuration space, one fresh interpreter per configuration, against a reference model of the three selection stages",
+   text="Every combination of PYSNARK_BACKEND value (unset, empty, 8 known, 5 unknown), 0-2 pre-imported backend modules in either order and loadability of libsnark/qaptools/flatbuffers (stand-ins) - 3420 configurations - runs in its own interpreter; the selected backend, the loud failure or the unknown-name report must match the model, and backend_name / module / field order / Groth16 switch / the eight interface functions must be mutually consistent. The space is enumerated completely in both tiers.",
+   note="Trusted base: the reference model in harness/checks/c19.py, stand-ins that make backends loadable or not; the IPython branch is not exercised.", ref="4 (C19)"),
+ "C20": dict(cat="exploration", tech="differential property-based testing against independent plain-integer Poseidon and subset-sum references, published vectors, metamorphic padding relations; one interpreter per backend-selection path",
+   text="With the recorder posing as each supported backend/field, generated input vectors (0-3 blocks, values across the field, int/bool/fixed-point mixes) are hashed by the gadgets and by independent plain-integer implementations; published vectors anchor both; constraints are evaluated and counted per length; padding relations are checked. 33 selection paths (environment, pre-import, auto-detection) each assert in a fresh interpreter that the bound parameter set is the one registered for the backend in use, or that the import raises. Exploration.",
+   note=TB + "; the constants file is data for the reference, the two published vectors are the external anchor.", ref="4 (C20)"),
 }
 PENDING = {}
 
